@@ -45,6 +45,7 @@ func TestVerif_C11(t *testing.T) {
 		c.Assume("RFC 7540 §6.9.1 allows a stream or a connection error for a flow-control violation; either is accepted for both windows (the server answers connection-window violations with a stream error)")
 		c.Assume("after an out-of-window frame the client's view of the windows is undefined, so such a frame is always the last event of a sequence")
 		c.Assume("interleavings are explored at event granularity (L2); sends racing with WINDOW_UPDATEs the endpoint emits are therefore always sent after those updates were received")
+		c.Assume("the Transport reports a connection-level FLOW_CONTROL_ERROR by failing the connection (and every pending request/body) with that error; the GOAWAY frame it writes is left in a buffer that is not flushed before the close (RFC 7540 §5.4.1 makes GOAWAY a SHOULD), so the oracle accepts the error code on the wire or as the ClientConn's read-loop error")
 		c10srvRunParts(c, c10sMode{id: "C11", enforce: true}, c11srvParts(c))
 		c11cliRunParts(c)
 	})
